@@ -80,8 +80,10 @@ Definition head_enable (ws : list write20) : Prop :=
   exists ws', (exists r, ws = WEnable r :: ws') \/ (exists a b c, ws = WEnv a b c :: ws').
 
 (* at a point where writes ws remain: crash-safe, and trusted unless this is the window (only if the guard g is on) *)
-Definition P (gk gb ak ab : list rev) (nt : bool) (s : st20) (ws : list write20) : Prop :=
-  Ist gk gb ak ab s /\ (Trust s \/ (g = true /\ nt = true /\ head_enable ws)).
+Definition P (gk gb ak ab : list rev) (nt sk : bool) (k b : rev) (s : st20) (ws : list write20) : Prop :=
+  Ist gk gb ak ab s /\ (Trust s \/ (g = true /\ nt = true /\ head_enable ws)) /\
+  (* what a restarted snapd relies on when it re-enters the operations on this partial state *)
+  (sk && status_eqb (ks s) STrying = false -> Qb k b s).
 
 Fixpoint pend_ok (Pp : st20 -> list write20 -> Prop) (Pf : st20 -> Prop) (s : st20) (ws : list write20) : Prop :=
   match ws with
@@ -102,7 +104,7 @@ Definition MI (m : mach) : Prop :=
   | PhOff => pend m = [] /\ Ist (gk m) (gb m) (ak m) (ab m) (st m) /\ Trust (st m)
   | PhFw i => pend m = [] /\ Ist (gk m) (gb m) (ak m) (ab m) (st m) /\ Trust (st m) /\ fwc i (st m)
   | PhRun k b =>
-      pend_ok (P (gk m) (gb m) (ak m) (ab m) (is_nt (cur m)))
+      pend_ok (P (gk m) (gb m) (ak m) (ab m) (is_nt (cur m)) (is_setk (cur m)) k b)
               (fun s' => Qf (gk m) (gb m) (cfin_ak (cur m) s' (ak m)) (cfin_ab (cur m) s' (ab m)) k b s')
               (st m) (pend m) /\
       (pend m = [] -> cur m = None)
@@ -143,6 +145,8 @@ Ltac sat :=
   | H : SBad = STrying -> _ |- _ => clear H
   | H : _ /\ _ |- _ => destruct H
   | H : false = true |- _ => discriminate H
+  | H : true = false |- _ => discriminate H
+  | H : status_eqb _ _ = false |- _ => progress simpl in H
   | H : false = true -> _ |- _ => clear H
   | H : context [live _] |- _ => progress cbn [live] in H
   | H : ?c = true -> forall t, Some ?x = Some t -> _, Hl : ?c = true |- _ => pose proof (H Hl x eq_refl); clear H
@@ -152,6 +156,7 @@ Ltac sat :=
 
 Ltac fin :=
   simpl; intros; subst; inv_eqb; subst; simpl; sat;
+  try match goal with H : status_eqb ?x STrying = false |- _ => is_var x; destruct x; simpl in H; try discriminate H end;
   try solve [ congruence | tauto | auto 6 using in_eq, in_cons, in_or_app
             | intuition (subst; auto 6 using in_eq, in_cons, in_or_app; congruence) ].
 
@@ -179,24 +184,24 @@ Ltac op_start HI HT HQ :=
 
 Lemma op_mark : forall gk gb ak ab k b s,
   Qf gk gb ak ab k b s ->
-  pend_ok (P (k :: gk) (b :: gb) ak ab false) (fun s' => Qf (k :: gk) (b :: gb) [] [] k b s') s (mark20 s).
+  pend_ok (P (k :: gk) (b :: gb) ak ab false false k b) (fun s' => Qf (k :: gk) (b :: gb) [] [] k b s') s (mark20 s).
 Proof.
   intros * (HI & HT & HQ). op_start HI HT HQ.
   unfold mark20, mark_kernel_sn, mark_base_sn, modeenv_write; simpl.
   assert (Hb : In (match mbs, mt with STrying, Some t => t | _, _ => mb end) (b :: gb)).
   { destruct mbs; try (right; exact I2). destruct mt as [t|]; [| right; exact I2].
     destruct (Q4 eq_refl t eq_refl). left; reflexivity. }
-  remember (match mbs, mt with STrying, Some t => t | _, _ => mb end) as bsn eqn:Eb. clear Eb Q4.
+  remember (match mbs, mt with STrying, Some t => t | _, _ => mb end) as bsn eqn:Eb. clear Eb.
   assert (Hk : (match ks0, tkl0 with STrying, Some t => t | _, _ => kl0 end) = kl0 \/
                (match ks0, tkl0 with STrying, Some t => t | _, _ => kl0 end) = k /\ In k mck).
   { destruct ks0; auto. destruct tkl0 as [t|]; auto. destruct (Q3 eq_refl t eq_refl); subst; auto. }
-  remember (match ks0, tkl0 with STrying, Some t => t | _, _ => kl0 end) as ksn eqn:Ek. clear Ek Q3.
+  remember (match ks0, tkl0 with STrying, Some t => t | _, _ => kl0 end) as ksn eqn:Ek. clear Ek.
   destruct Hk as [Hk | [Hk Hck]]; subst ksn; break; finish.
 Qed.
 
 Lemma op_setk_try : forall gk gb ak ab k b s r,
   Qf gk gb ak ab k b s ->
-  pend_ok (P gk gb (if N.eqb r (kl s) then ak else r :: ak) ab false)
+  pend_ok (P gk gb (if N.eqb r (kl s) then ak else r :: ak) ab false true k b)
           (fun s' => Qf gk gb (if N.eqb r (kl s') then [] else [r]) ab k b s') s (set_next_kernel fx s r false).
 Proof.
   intros * (HI & HT & HQ). op_start HI HT HQ.
@@ -206,7 +211,7 @@ Qed.
 
 Lemma op_setk_notry : forall gk gb ak ab k b s r,
   Qf gk gb ak ab k b s -> In r gk ->
-  pend_ok (P gk gb ak ab true) (fun s' => Qf gk gb [] ab k b s') s (set_next_kernel fx s r true).
+  pend_ok (P gk gb ak ab true true k b) (fun s' => Qf gk gb [] ab k b s') s (set_next_kernel fx s r true).
 Proof.
   intros * (HI & HT & HQ) Hr. op_start HI HT HQ.
   unfold set_next_kernel, modeenv_write, set_ck; simpl.
@@ -216,7 +221,7 @@ Qed.
 
 Lemma op_setb_try : forall gk gb ak ab k b s r,
   Qf gk gb ak ab k b s ->
-  pend_ok (P gk gb ak (if N.eqb r (m_base (me s)) then ab else r :: ab) false)
+  pend_ok (P gk gb ak (if N.eqb r (m_base (me s)) then ab else r :: ab) false false k b)
           (fun s' => Qf gk gb ak (if N.eqb r (m_base (me s')) then [] else [r]) k b s') s (set_next_base s r false).
 Proof.
   intros * (HI & HT & HQ). op_start HI HT HQ.
@@ -226,7 +231,7 @@ Qed.
 
 Lemma op_setb_notry : forall gk gb ak ab k b s r,
   Qf gk gb ak ab k b s -> In r gb ->
-  pend_ok (P gk gb ak ab false) (fun s' => Qf gk gb ak [] k b s') s (set_next_base s r true).
+  pend_ok (P gk gb ak ab false false k b) (fun s' => Qf gk gb ak [] k b s') s (set_next_base s r true).
 Proof.
   intros * (HI & HT & HQ) Hr. op_start HI HT HQ.
   unfold set_next_base, modeenv_write, set_bst; simpl.
@@ -235,24 +240,24 @@ Qed.
 
 Lemma op_mark_env : forall gk gb ak ab k b s,
   Qf gk gb ak ab k b s ->
-  pend_ok (P (k :: gk) (b :: gb) ak ab false) (fun s' => Qf (k :: gk) (b :: gb) [] [] k b s') s (mark20_env s).
+  pend_ok (P (k :: gk) (b :: gb) ak ab false false k b) (fun s' => Qf (k :: gk) (b :: gb) [] [] k b s') s (mark20_env s).
 Proof.
   intros * (HI & HT & HQ). op_start HI HT HQ.
   unfold mark20_env, mark_kernel_sn, mark_base_sn, modeenv_write, orev_is_none; simpl.
   assert (Hb : In (match mbs, mt with STrying, Some t => t | _, _ => mb end) (b :: gb)).
   { destruct mbs; try (right; exact I2). destruct mt as [t|]; [| right; exact I2].
     destruct (Q4 eq_refl t eq_refl). left; reflexivity. }
-  remember (match mbs, mt with STrying, Some t => t | _, _ => mb end) as bsn eqn:Eb. clear Eb Q4.
+  remember (match mbs, mt with STrying, Some t => t | _, _ => mb end) as bsn eqn:Eb. clear Eb.
   assert (Hk : (match ks0, tkl0 with STrying, Some t => t | _, _ => kl0 end) = kl0 \/
                (match ks0, tkl0 with STrying, Some t => t | _, _ => kl0 end) = k /\ In k mck).
   { destruct ks0; auto. destruct tkl0 as [t|]; auto. destruct (Q3 eq_refl t eq_refl); subst; auto. }
-  remember (match ks0, tkl0 with STrying, Some t => t | _, _ => kl0 end) as ksn eqn:Ek. clear Ek Q3.
+  remember (match ks0, tkl0 with STrying, Some t => t | _, _ => kl0 end) as ksn eqn:Ek. clear Ek.
   destruct Hk as [Hk | [Hk Hck]]; subst ksn; break; finish.
 Qed.
 
 Lemma op_setk_try_env : forall gk gb ak ab k b s r,
   Qf gk gb ak ab k b s ->
-  pend_ok (P gk gb (if N.eqb r (kl s) then ak else r :: ak) ab false)
+  pend_ok (P gk gb (if N.eqb r (kl s) then ak else r :: ak) ab false true k b)
           (fun s' => Qf gk gb (if N.eqb r (kl s') then [] else [r]) ab k b s') s (set_next_kernel_env fx s r false).
 Proof.
   intros * (HI & HT & HQ). op_start HI HT HQ.
@@ -262,7 +267,7 @@ Qed.
 
 Lemma op_setk_notry_env : forall gk gb ak ab k b s r,
   Qf gk gb ak ab k b s -> In r gk ->
-  pend_ok (P gk gb ak ab true) (fun s' => Qf gk gb [] ab k b s') s (set_next_kernel_env fx s r true).
+  pend_ok (P gk gb ak ab true true k b) (fun s' => Qf gk gb [] ab k b s') s (set_next_kernel_env fx s r true).
 Proof.
   intros * (HI & HT & HQ) Hr. op_start HI HT HQ.
   unfold set_next_kernel_env, modeenv_write, set_ck; simpl.
@@ -278,7 +283,7 @@ Lemma op_all : forall gk gb ak ab k b s o,
   let gb' := match o with Mark => b :: gb | _ => gb end in
   let ak1 := match o with SetK r false => if N.eqb r (kl s) then ak else r :: ak | _ => ak end in
   let ab1 := match o with SetB r false => if N.eqb r (m_base (me s)) then ab else r :: ab | _ => ab end in
-  pend_ok (P gk' gb' ak1 ab1 (is_nt (Some o)))
+  pend_ok (P gk' gb' ak1 ab1 (is_nt (Some o)) (is_setk (Some o)) k b)
           (fun s' => Qf gk' gb' (fin_ak o s' ak1) (fin_ab o s' ab1) k b s') s (writes20 cf fx o s).
 Proof.
   intros * HQ Hen. destruct o as [r [|] | r [|] |], cf; simpl.
@@ -380,11 +385,25 @@ Proof.
     { destruct (ph m) as [| i | k b |] eqn:Eph; try tauto.
       destruct HM as [HQ Hm]. destruct (pend m) as [| w ws] eqn:Ep; simpl in HQ.
       - rewrite (Hm eq_refl) in HQ. destruct HQ as (? & ? & ?); auto.
-      - destruct HQ as [[HI [HT | (Hg & Hnt & ws' & Hh)]] _]; auto.
+      - destruct HQ as [[HI [[HT | (Hg & Hnt & ws' & Hh)] _]] _]; auto.
         exfalso. unfold is_nt in Hnt. destruct (cur m) as [[? [|] | |]|] eqn:Ec; try discriminate.
         unfold in_window in Ew. rewrite Ec, Ep, Hg in Ew.
         destruct Hh as [[r9 Hh] | (a1 & a2 & a3 & Hh)]; inversion Hh; subst; simpl in Ew; discriminate. }
     destruct (ph m); unfold MI; simpl; tauto.
+  - (* ERestart *)
+    unfold step20.
+    destruct (ph m) as [| i | k b |] eqn:Eph; try (unfold MI; rewrite Eph; exact HM).
+    destruct (pend m) as [| w ws] eqn:Ep; [exact HM0 |].
+    destruct ((g && in_window m) || negb (restart_ok m)) eqn:Ew; [exact HM0 |].
+    apply Bool.orb_false_iff in Ew. destruct Ew as [Ew Er]. apply Bool.negb_false_iff in Er.
+    unfold restart_ok in Er. apply Bool.negb_true_iff in Er.
+    destruct HM as [[(HI & HTw & HQb) _] _].
+    unfold MI; simpl. rewrite ?Eph. simpl. split; [| reflexivity].
+    split; [exact HI |]. split; [| exact (HQb Er)].
+    destruct HTw as [HT | (Hg & Hnt & ws' & Hh)]; auto.
+    exfalso. unfold is_nt in Hnt. destruct (cur m) as [[? [|] | |]|] eqn:Ec; try discriminate.
+    unfold in_window in Ew. rewrite Ec, Ep, Hg in Ew.
+    destruct Hh as [[r9 Hh] | (a1 & a2 & a3 & Hh)]; inversion Hh; subst; simpl in Ew; discriminate.
   - (* EFirmware *)
     unfold step20.
     destruct (ph m) as [| i | k b |] eqn:Eph; try (unfold MI; rewrite Eph; exact HM).
@@ -471,6 +490,7 @@ Proof.
     destruct o as [? ? | ? ? |]; simpl; auto. right; exists k, b; auto.
   - destruct (ph m); auto. destruct (pend m); auto.
   - destruct (g && in_window m); destruct (ph m); auto.
+  - destruct (ph m); auto. destruct (pend m); auto. destruct ((g && in_window m) || negb (restart_ok m)); auto.
   - destruct (ph m); auto. destruct (firmware_c cf tb (st m)); auto.
   - destruct (ph m); auto. destruct (initramfs20 (st m)) as [[? ?] ?]; auto.
 Qed.
